@@ -49,7 +49,6 @@ class Builder:
         self.env = dict(os.environ, TMPDIR=os.path.join(work, "tmp"), LC_ALL="C")
         for d in ("tmp", "inc", "obj"):
             os.makedirs(os.path.join(work, d), exist_ok=True)
-        os.makedirs(CACHE, exist_ok=True)
         self.xdir = os.path.join(self.repo, "mpn", "x86_64")
         for need in ("config.m4", "yasm_mac.inc", "config.h", "mpir.h", "gmp-impl.h", "mpn/asm-defs.m4", "mpn/x86_64/x86_64-defs.m4", "mp_minv_tab.c", "tests/refmpn.c"):
             if not os.path.exists(os.path.join(self.repo, need)):
@@ -68,17 +67,23 @@ class Builder:
         self.cflags = ["-O1", "-fPIC", "-w", "-DHAVE_CONFIG_H", "-D__GMP_WITHIN_GMP", "-I" + inc]
 
     def cached(self, key, suffix, build):
-        """build(path) creates the artefact; cached by content key."""
-        dst = os.path.join(CACHE, key + suffix)
-        if not os.path.exists(dst):
-            tmp = os.path.join(CACHE, ".tmp.%s.%d.%d%s" % (key, os.getpid(), threading.get_ident(), suffix))
-            try:
-                build(tmp)
-                os.replace(tmp, dst)            # atomic: concurrent runs may race on the same key
-            finally:
-                if os.path.exists(tmp):
-                    os.unlink(tmp)
-        return dst
+        """build(path) creates the artefact. The run only ever uses its private copy in the work dir (the shared cache
+        /verif/.cache/kern may be wiped by anybody at any time); the cache is read and filled on a best-effort basis."""
+        mine = os.path.join(self.work, "art", key + suffix); dst = os.path.join(CACHE, key + suffix)
+        os.makedirs(os.path.dirname(mine), exist_ok=True)
+        try:
+            shutil.copy2(dst, mine + ".part"); os.replace(mine + ".part", mine)
+            return mine
+        except OSError:
+            pass
+        build(mine)
+        try:
+            os.makedirs(CACHE, exist_ok=True)
+            tmp = os.path.join(CACHE, ".tmp.%s.%d.%d" % (key, os.getpid(), threading.get_ident()))
+            shutil.copy2(mine, tmp); os.replace(tmp, dst)      # atomic publish
+        except OSError:
+            pass
+        return mine
 
     def cc(self, src, obj, extra=()):
         rc, _, err = sh(["gcc"] + self.cflags + list(extra) + ["-c", src, "-o", obj], env=self.env)
